@@ -1,6 +1,8 @@
-(* C06 / C13 driver (same file is used for both).
+(* C13 driver (the C06 driver is the same file without the pattern filter and the glob request).
    tree  ::= R<mode>:<datahex> | L:<texthex> | S<mode> | D[<namehex>=<tree>;...]   (D[] = empty directory)
-   filter ::= all | empty | named:<0|1 case_sensitive>:<namehex>,<namehex>...
+   filter ::= all | empty | named:<0|1 case_sensitive>:<namehex>,<namehex>... | pat:<patternhex>,<patternhex>...
+              (pat = ignore_directories_patterns, through the two-predicate model FromDiskPat.from_disk_pat; iterids does
+               not take it: the literal stack/queue model covers the name / emptiness filters only)
      ids <filter> <limit|-> <order id|rev> <tree> -> ok <pathhex>=<idhex>;...   (every node of the resulting Merkle tree; root path ".")
                                                   | err SymlinkTooLarge
      iterids <filter> <limit|-> <order id|rev> <tree> -> the same, through the literal stack/queue model from_disk_iter
@@ -8,7 +10,9 @@
      spec <tree>                                   -> ok <node_id> <git_node_id> <wf 0|1>
      pruned <filter> <tree>                        -> ok <node_id of the physically pruned tree>
      export <filter> <limit|-> <tree>              -> ok D:<id>:<target,target..>;C:<id>:<sha1 of data>:<len>;S:<id>:<len>;...
-     norm <pathhex>                                -> ok <hex> *)
+     norm <pathhex>                                -> ok <hex>
+     glob <patternhex> <texthex>                   -> ok <0|1>        (glob_match)
+     oldpass2 <k> <filter pat:..> <tree>           -> ids with the pre-fix pass-2 view of a root k components deep *)
 let rec parse_tree (s : string) (i : int ref) : fsnode =
   let c = s.[!i] in
   incr i;
@@ -38,6 +42,15 @@ let parse_filter (s : string) : filt =
   | ["empty"] -> FEmpty
   | ["named"; cs; ns] -> FNamed ((if ns = "" then [] else List.map bytes_of_hex (String.split_on_char ',' ns)), cs = "1")
   | _ -> failwith "filter"
+type flt = Old of filt | Pat of n list list
+let parse_flt (s : string) : flt =
+  match String.split_on_char ':' s with
+  | ["pat"; ps] -> Pat (if ps = "" then [] else List.map bytes_of_hex (String.split_on_char ',' ps))
+  | _ -> Old (parse_filter s)
+let read_tree ord (f : flt) lim t =
+  match f with
+  | Old f -> from_disk ord f lim t
+  | Pat ps -> from_disk_pat ord (pat_filter ps) (pat_filter ps) lim t
 let parse_limit s = if s = "-" then None else Some (n_of_decimal s)
 let slash = n_of_int 47
 let rec all_nodes (prefix : n list list) (m : mtree) : (n list list * mtree) list =
@@ -51,9 +64,16 @@ let show_ids (m : mtree) : string =
 let () = serve (function
   | ["ids"; f; lim; o; t] ->
       let ord = if o = "rev" then (fun _ l -> List.rev l) else (fun _ l -> l) in
-      (match from_disk ord (parse_filter f) (parse_limit lim) (tree_of t) with
+      (match read_tree ord (parse_flt f) (parse_limit lim) (tree_of t) with
        | FdOk m -> show_ids m
        | FdSymlinkTooLarge -> "err SymlinkTooLarge")
+  | ["oldpass2"; k; f; t] ->
+      (match parse_flt f with
+       | Pat ps -> (match from_disk_pat (fun _ l -> l) (pat_filter ps) (old_pass2 (nat_of_int (int_of_string k)) ps) None (tree_of t) with
+                    | FdOk m -> show_ids m
+                    | FdSymlinkTooLarge -> "err SymlinkTooLarge")
+       | Old _ -> "err bad_request")
+  | ["glob"; p; t] -> if glob_match (bytes_of_hex p) (bytes_of_hex t) then "ok 1" else "ok 0"
   | ["iterids"; f; lim; o; t] ->
       (match from_disk_iter (if o = "rev" then lrev else lid) (parse_filter f) (parse_limit lim) (tree_of t) with
        | ItOk m -> show_ids m
@@ -66,10 +86,12 @@ let () = serve (function
       "ok " ^ hex_of_bytes (node_id sha1 tr) ^ " " ^ hex_of_bytes (git_node_id sha1 tr) ^ (if wf_fs tr then " 1" else " 0")
   | ["pruned"; f; t] ->
       let tr = tree_of t in
-      let p = (match parse_filter f with FAll -> tr | FEmpty -> prune_empty tr | FNamed (ns, cs) -> prune_named ns cs tr) in
+      let p = (match parse_flt f with
+               | Pat ps -> prune_pat ps tr
+               | Old FAll -> tr | Old FEmpty -> prune_empty tr | Old (FNamed (ns, cs)) -> prune_named ns cs tr) in
       "ok " ^ hex_of_bytes (node_id sha1 p)
   | ["export"; f; lim; t] ->
-      (match from_disk (fun _ l -> l) (parse_filter f) (parse_limit lim) (tree_of t) with
+      (match read_tree (fun _ l -> l) (parse_flt f) (parse_limit lim) (tree_of t) with
        | FdOk m ->
            let xs = export sha1 m in
            "ok " ^ (if xs = [] then "." else String.concat ";" (List.map (function
